@@ -77,6 +77,7 @@ class RandInfoBuilder(ModelVisitor,RandIF):
         self._randset_l = []
         self._randset_field_m : Dict[FieldModel,RandSet] = {} # map<field,randset>
         self._constraint_s : List[ConstraintModel] = []
+        self._noref_constraint_l : List[ConstraintModel] = []
         self._soft_priority = 0
         self._used_rand = True
         self._in_generator = False
@@ -124,6 +125,14 @@ class RandInfoBuilder(ModelVisitor,RandIF):
             c.accept(builder)
             
         randset_l = list(filter(lambda e: e is not None, builder._randset_l))
+
+        if len(builder._noref_constraint_l) > 0:
+            # Statements that reference no random field form a
+            # field-less randset, so an unsatisfiable one fails the solve
+            noref_rs = RandSet()
+            for c in builder._noref_constraint_l:
+                noref_rs.add_constraint(c)
+            randset_l.append(noref_rs)
         
         # Handle ordering constraints.
         # - Collect fields that are members of this randset
@@ -214,8 +223,9 @@ class RandInfoBuilder(ModelVisitor,RandIF):
                 for s in self._active_order_randset_s:
                     s.add_constraint(c)
             else:
-#                print("TODO: handle no-reference constraint: " + str(c_blk.name))
-                pass
+                # A statement that references no random field must still
+                # hold: collect it so the solver checks it
+                self._noref_constraint_l.append(c)
         super().visit_constraint_stmt_leave(c)
         
     def visit_constraint_dynref(self, c):
